@@ -80,6 +80,12 @@ EDITS = [
     ("dispatch-twice", CLI, "            self.process_command(command, handler)?;\n        };", "            self.process_command(command.clone(), handler)?;\n            if command.name() == \"set\" {\n                self.process_command(command, handler)?;\n            }\n        };", ["C01"]),
     ("prompt-change-from-handler-ignored-when-output", CLI, "        if let Some(prompt) = handle.new_prompt {\n            self.prompt = prompt;\n        }", "        if let Some(prompt) = handle.new_prompt.filter(|_| !handle.writer.is_dirty()) {\n            self.prompt = prompt;\n        }", ["C06"]),
     ("utf8-4byte-threshold", "embedded-cli/src/utf8.rs", "        } else if byte >= 0xF0 {", "        } else if byte >= 0xF1 {", ["C04", "C02"]),
+    ("derived-processor-swallows-handler-error", "embedded-cli-macros/src/processor.rs", "                        (self.f)(cli, cmd)?;", "                        let _ = (self.f)(cli, cmd);", ["C14"]),
+    ("raw-processor-swallows-handler-error", "embedded-cli/src/command.rs", "                (self.f)(cli, raw)?;", "                let _ = (self.f)(cli, raw);", ["C14"]),
+    ("cli-new-does-not-flush-prompt", CLI, "            _ph: PhantomData,\n            #[cfg(feature = \"verif-hooks\")]\n            verif_last: crate::verif::VerifInput::None,\n        };\n\n        cli.writer.flush_str(cli.prompt)?;",
+     "            _ph: PhantomData,\n            #[cfg(feature = \"verif-hooks\")]\n            verif_last: crate::verif::VerifInput::None,\n        };\n\n        cli.writer.write_str(cli.prompt)?;", ["C15", "C06"]),
+    ("slice-buffer-len-off-by-one", "embedded-cli/src/buffer.rs", "impl Buffer for &mut [u8] {\n    fn as_slice(&self) -> &[u8] {\n        self\n    }",
+     "impl Buffer for &mut [u8] {\n    fn as_slice(&self) -> &[u8] {\n        self\n    }\n\n    fn len(&self) -> usize {\n        self.as_slice().len().saturating_sub(1)\n    }", ["C05", "C10"]),
     ("common-prefix-byte-granular", UT, "        if c1.is_some() {\n            pos = byte_counter;\n        }", "        pos = byte_counter;", ["C11", "C02", "C03"]),
 ]
 
@@ -98,11 +104,18 @@ def repo_tests_pass():
     return bool(lines) and all("FAILED" not in l and " 0 failed" in l for l in lines)
 
 
+SCRATCH = "/tmp/ecli-mutants-scratch"
+
+
 def run_checks(props):
     res = {}
+    env = dict(os.environ)
+    # evidence and replay files of mutant runs must not overwrite the real ones
+    env["VERIF_EVIDENCE_DIR"] = os.path.join(SCRATCH, "evidence")
+    env["VERIF_REPLAY_DIR"] = os.path.join(SCRATCH, "replays")
     for p in props:
         t0 = time.time()
-        r = sh(["./check", p, "quick"], cwd=ROOT)
+        r = subprocess.run(["./check", p, "quick"], cwd=ROOT, env=env, stdout=subprocess.PIPE, stderr=subprocess.STDOUT, text=True)
         caught = r.returncode == 1 and "VIOLATION property=" in r.stdout
         detail = next((l.strip() for l in r.stdout.splitlines() if l.strip().startswith("check=")), "")
         res[p] = dict(caught=caught, exit=r.returncode, seconds=round(time.time() - t0, 1), detail=detail[:200])
@@ -150,6 +163,7 @@ def main():
         results.append(dict(name=name, compiles=compiles, suite_passes=tests, expected=props, caught_by=caught_by, checks=res))
         print(f"{name:48s} compiles={compiles} suite_passes={tests} caught_by={caught_by} missed_by={[p for p in props if p not in caught_by]}", flush=True)
     clean()
+    sh(["rm", "-rf", SCRATCH])
     json.dump(results, open(os.path.join(ROOT, "tools", "mutants-result.json"), "w"), indent=1)
     missed = [r["name"] for r in results if not r.get("caught_by")]
     print(f"{len(results) - len(missed)}/{len(results)} mutants caught by at least one expected check; not caught: {missed}")
